@@ -68,7 +68,9 @@ def make_arrays(cfg, extra_props=False):
         h = np.array([cfg['h'][i] for i in idx], dtype=float)
         pa = get_particle_array(name='a%d' % a, x=x, y=y, z=z, h=h)
         n = len(idx)
-        pa.gid[:] = np.arange(gid0, gid0 + n, dtype=np.uint32)
+        # global ids that are neither the identity nor ordered like the
+        # local indices (sort_gids must sort by them yet return indices)
+        pa.gid[:] = (7 + gid0 + np.arange(n)[::-1]).astype(np.uint32)
         gid0 += n
         pas.append(pa)
     return pas
